@@ -377,6 +377,9 @@ _WHOLE_SLICE = re.compile(r"\b(?:index|index_mut)\(([^(),]+),_\)|\b(?:as_slice|a
 
 def canon_elem(txt):
     txt = _canon_elem(txt)
+    if isinstance(txt, str) and ".0.pointer" in txt:
+        txt = txt.replace(".0.pointer", "")          # `**boxed` spelled through Box's internals: the pointee is the box
+
     if isinstance(txt, str) and ("index(" in txt or "as_slice(" in txt or "as_mut_slice(" in txt or "index_mut(" in txt):
         # the whole sequence as a slice: `&xs[..]` / `xs.as_slice()` / xs
         txt = _WHOLE_SLICE.sub(lambda m: m.group(1) or m.group(2), txt)
